@@ -1,0 +1,14 @@
+//go:build verif
+
+package decoration // import "go.pennock.tech/tabular/texttable/decoration"
+
+// SimYield, when non-nil, is called at the registry's lock boundaries (never
+// with the lock held) so that a deterministic simulator can decide which
+// caller proceeds.  Only compiled in with the "verif" build tag.
+var SimYield func(site string)
+
+func simYield(site string) {
+	if f := SimYield; f != nil {
+		f(site)
+	}
+}
